@@ -545,7 +545,7 @@ CHECKS = {
             "arithmetic and is compared only on inputs whose float arithmetic is exact (decided from the input alone); for all other magnitudes the model is driven with the float "
             "distances (recomputed with the code's operations, cross-checked against the matrix in the implementation's frame) and the frame's line-759 values (theorems hold for any). "
             "K = sqrt(N) is represented by floor(sqrt N) (quickselect_floor).",
-            "Lean 4 proof over hand-written models (loop invariants for truncation, niching, Hoare partition) + tape-replay correspondence + oracle"),
+            "Lean 4 proof over hand-written models (loop invariants for truncation, niching, Hoare partition) + tape-replay correspondence + oracle + translator tie for the quick-select, the reference-point recursion and the SPEA2 deletion loop (definitions regenerated from source, kernel-checked refinements of the model)"),
     "C14": ("partial",
             "Lean theorems over Core/CmaElitist.lean for all inputs: elitism of both (1+lambda) strategies over any history (elitist_never_worse, "
             "active_elitist_never_worse), psucc in [0,1] / sigma>0 over any history (psucc_sigma_history, active_psucc_sigma_history, mo_psucc_sigma), "
